@@ -2,7 +2,6 @@ package vuego
 
 import (
 	"fmt"
-	"html"
 	"io"
 	"strings"
 	"sync"
@@ -90,26 +89,9 @@ func (v *Vue) interpolateToWriter(ctx VueContext, w io.Writer, input string) err
 		}
 
 		if val != nil {
-			// Escape value for HTML output (unless in a script/style tag)
-			valStr := fmt.Sprint(val)
-			parentTag := ctx.CurrentTag()
-			// Skip escaping inside script and style tags, since they contain code/CSS, not HTML
-			if parentTag == "script" || parentTag == "style" {
-				if _, err := io.WriteString(w, valStr); err != nil {
-					return err
-				}
-			} else {
-				// Skip escaping if the string doesn't contain special characters
-				// (avoids allocation in html.EscapeString for most cases)
-				if !helpers.NeedsHTMLEscape(valStr) {
-					if _, err := io.WriteString(w, valStr); err != nil {
-						return err
-					}
-				} else {
-					if _, err := io.WriteString(w, html.EscapeString(valStr)); err != nil {
-						return err
-					}
-				}
+			// Values are stored raw; the serialiser is the single escaping point.
+			if _, err := io.WriteString(w, fmt.Sprint(val)); err != nil {
+				return err
 			}
 		}
 
